@@ -587,8 +587,24 @@ def c05_defaults(run):
                         want = conv if k2 == "ok" else d
                         if obs(got) != obs(want):
                             acc.fail(key, f"omitted property {p.source!r} (Python name {n}): model.{n} = {got!r}, expected its default {want!r}")
-        # calling any element with no value
-        for i, mk, e in element_cases(2 if run.tier == "quick" else 3):
+        # calling any element with no value (plus model classes whose default is invalid / not a dict / violates a keyword)
+        def class_defaults():
+            from statham.schema.elements import Object, String, Integer
+            from statham.schema.property import Property
+            yield lambda: Object.inline("BadType", properties={"a": Property(Integer())}, default={"a": "not an int"})
+            yield lambda: Object.inline("MissingRequired", properties={"a": Property(String(), required=True)}, default={})
+            yield lambda: Object.inline("NotADict", properties={"a": Property(String())}, default=[1, 2])
+            yield lambda: Object.inline("TooFew", minProperties=2, default={"a": 1})
+            yield lambda: Object.inline("NoneDefault", default=None)
+            yield lambda: Object.inline("Extra", properties={"a": Property(String())}, additionalProperties=False, default={"b": 1})
+            yield lambda: Object.inline("Valid", properties={"a": Property(String())}, default={"a": "x"})
+        extra_cases = []
+        for mk in class_defaults():
+            try:
+                extra_cases.append((-1, mk, mk()))
+            except Exception:
+                continue
+        for i, mk, e in list(element_cases(2 if run.tier == "quick" else 3)) + extra_cases:
             d = getattr(e, "default", NotPassed())
             key = f"{edesc(e)}()"
             try:
